@@ -76,10 +76,13 @@ def parse_class(items, cli_start=False):
     return "other"
 
 
-def retry_class(pairs):
+def retry_class(pairs, recorded=None):
     # the recorded text of an unnamed value `word=…` is indistinguishable from NAME=… (F14c; same shape as F14b)
     for n, v in pairs:
         if n == "" and eq_before_space(v): return "unnamed-value-with-eq-before-space"
+    # what the retry / restart COMMAND does with the recorded string on its way to the loader is part of the comparison:
+    # a recorded string that begins and ends with a double quote is the shape removeQuotes (meant for `start -p`) would touch
+    if recorded is not None and py_remove_quotes(recorded) != recorded: return "recorded-string-begins-and-ends-with-quote"
     for n, v in pairs:
         if any(c in RE_SPACE for c in v): return "value-with-white-space"
     for n, v in pairs:
@@ -232,6 +235,7 @@ def hpairs(l):
 AFTER_PRODUCER_1 = ["run1.adjacent", "run1.distant", "run1.onfailure", "run1.onexit"]
 RETRY_POS = ["run2.afterfail", "run2.onsuccess", "run2.onexit"]
 ALL_POS_1 = ["run1.before"] + AFTER_PRODUCER_1
+AFTER_PRODUCER_3 = ["run3.adjacent", "run3.distant", "run3.afterfail", "run3.onsuccess", "run3.onexit"]   # `restart`: a complete new run
 
 
 def run(chk, replay):
@@ -288,6 +292,19 @@ def run(chk, replay):
         dyn.append(([("bare", "p1")], False, gen_out(rng, 300, "bytes"), b""))
         dyn.append(([("quoted", 'x"')], True, b"v", b""))
         dyn.append(([("quoted", "a=b")], False, b"v", b""))
+        # recorded strings that begin and end with a double quote (first and last parameter quoted): whatever the retry / restart
+        # command does to the recorded string before it reaches the loader is part of what is compared
+        dyn.append(([("quoted", "hello world")], False, b"v", b"", {"restart": True}))
+        dyn.append(([("quoted", "a b"), ("bare", "mid"), ("quoted", "c d")], False, b"v", b"", {"restart": True}))
+        dyn.append(([("quoted", "")], False, b"v", b"", {}))
+        dyn.append(([("quoted", "x y"), ("namedQ", "K", "v w")], True, b"v", b"", {"via": True, "restart": True}))
+        # the producer's output NAME collides with (a) a named parameter, (b) a DAG-level env entry, (c) an earlier output of
+        # another step: the captured value is what every later consumer sees (environment and command line), also in the retry
+        dyn.append(([("bare", "p1"), ("named", "K", "paramvalue")], False, b"captured over a parameter\n", b"", {"outname": "K"}))
+        dyn.append(([("namedQ", "K2", "param value")], True, b"captured = over a start parameter", b"", {"outname": "K2", "restart": True}))
+        dyn.append(([("bare", "p1")], False, b"captured over a DAG env entry\n", b"", {"outname": "ENVX", "envs": [["ENVX", "dag level value"]]}))
+        dyn.append(([("bare", "p1")], False, b" second capture under the name \n", b"", {"preout": True}))
+        dyn.append(([("named", "K", "pv")], False, b"all three", b"", {"outname": "K", "envs": [["K", "dagenv"]], "preout": True, "pfails": 1}))
         n_dyn = 14 if quick else 160
         for _ in range(n_dyn):
             size = rng.choice([rng.randint(0, 40), rng.randint(0, 40), rng.randint(41, 3000), rng.randint(3000, 20000), rng.choice(SIZES[:7])])
@@ -301,15 +318,27 @@ def run(chk, replay):
             if j < len(dyn): multi[j] = 1 + (j % 2)
         for j in range(len(dyn)):
             if j >= len(SIZES) + 8 and rng.random() < 0.25: multi[j] = rng.choice([1, 1, 2])
-        for j, (its, at_start, outb, errb) in enumerate(dyn):
+        for j, dj in enumerate(dyn):
+            its, at_start, outb, errb = dj[:4]
+            extra = dict(dj[4]) if len(dj) > 4 else {}
+            if not extra and j >= len(SIZES) + 8:
+                # random collisions / restart legs
+                u = rng.random()
+                named_here = [it[1] for it in its if it[0] in ("named", "namedQ")]
+                if u < 0.12 and named_here: extra["outname"] = rng.choice(named_here)
+                elif u < 0.22: extra.update(outname="ENVX", envs=[["ENVX", "dag level value"]])
+                elif u < 0.30: extra["preout"] = True
+                if rng.random() < 0.3: extra["restart"] = True
             p = render(its)
             cid = "d%d" % k; k += 1
             names = sorted({it[1] for it in its if it[0] in ("named", "namedQ")})
-            want = ["OUT"] + [str(i + 1) for i in range(len(its) + 1)] + names
+            outname = extra.get("outname", "OUT")
+            want = [outname] + [str(i + 1) for i in range(len(its) + 1)] + [n for n in names if n != outname]
             c = {"id": cid, "mode": "dyn", "params": hx("dflt" if at_start else p), "start": hx(p) if at_start else "",
                  # through the API client only without CR / LF (F25: line breaks are outside the documented syntax there)
-                 "via": bool(at_start and rng.random() < 0.5 and "\n" not in p and "\r" not in p), "out": outb.hex(), "errout": errb.hex(), "pfails": multi.get(j, 0), "want": [hx(w) for w in want],
-                 "timeout": 60000}
+                 "via": bool(at_start and (extra.get("via") or rng.random() < 0.5) and "\n" not in p and "\r" not in p), "out": outb.hex(), "errout": errb.hex(),
+                 "pfails": extra.get("pfails", multi.get(j, 0)), "want": [hx(w) for w in want], "outname": outname, "envs": extra.get("envs", []),
+                 "preout": bool(extra.get("preout")), "restart": bool(extra.get("restart")), "timeout": 60000}
             cases.append(c)
             meta[cid] = {"kind": "dyn", "items": its, "p": p, "at_start": at_start}
     res, err = run_harness(binp, cases)
@@ -424,66 +453,85 @@ def run(chk, replay):
                           "producer printing %d+%d bytes with `output:` never finished (run killed after %d ms, phase %s)" %
                           (len(outb), len(errb), c["timeout"], r.get("phase")), rc)
             continue
-        if r.get("load_err") or r.get("find_err") or r.get("load2_err"):
-            chk.violation("C11:run-not-possible", "load/retry failed: %s" % (r.get("load_err") or r.get("find_err") or r.get("load2_err")), rc); continue
+        if r.get("load_err") or r.get("find_err") or r.get("load2_err") or r.get("load3_err"):
+            chk.violation("C11:run-not-possible", "start/retry/restart left no record: %s" %
+                          (r.get("load_err") or r.get("find_err") or r.get("load2_err") or r.get("load3_err")), rc); continue
         probes = r.get("probes", {})
-        # correspondence on the recorded strings
+        outname = c.get("outname", "OUT")
+        legs = ["run1", "run2"] + (["run3"] if c.get("restart") else [])
+        if c.get("outname", "OUT") != "OUT" or c.get("preout"): stats["dyn_name_collisions"] = stats.get("dyn_name_collisions", 0) + 1
+        if c.get("restart"): stats["dyn_restart_legs"] = stats.get("dyn_restart_legs", 0) + 1
+        rec1 = unhx(r.get("recorded_params", "")).decode(errors="replace")
+        # correspondence on the recorded strings (run, retry, restart)
         if d is not None:
-            if [unhx(x).decode() for x in r["dag_params"]] != seen_positional(d["pairs"]): disagree(cid, "dag_params", r["dag_params"], d["pairs"], c)
-            if unhx(r.get("recorded_params", "")).decode() != d["joined"]: disagree(cid, "recorded", r.get("recorded_params"), d["joined"], c)
-            # an EMPTY recorded string makes the loader fall back to the DAG's own `params:` (buildParams)
-            exp2 = d["repairs"] if d["joined"] != "" else (d["pairs"] if not m.get("at_start") else [("", "dflt")])
-            if [unhx(x).decode() for x in r.get("dag_params2", [])] != seen_positional(exp2): disagree(cid, "dag_params2", r.get("dag_params2"), exp2, c)
+            if rec1 != d["joined"]: disagree(cid, "recorded", r.get("recorded_params"), d["joined"], c)
+            if d["repairs"] == d["pairs"] and d["joined"] != "":
+                # the model's round trip holds for this string: retry and restart record the same string again
+                for key in ("recorded_params2",) + (("recorded_params3",) if c.get("restart") else ()):
+                    if unhx(r.get(key, "")).decode(errors="replace") != d["joined"]: disagree(cid, key, r.get(key), d["joined"], c)
         oi = sidx.get(cid + "/out")
         if oi is not None and dres[oi] is not None:
-            v = (probes.get("run1.adjacent") or {}).get(hx("OUT"))
+            v = (probes.get("run1.adjacent") or {}).get(hx(outname))
             if v is None or unhx(v).decode(errors="replace") != dres[oi]["cap"]:
                 disagree(cid, "captured", v and v[:80], dres[oi]["cap"][:40], c)
-        # ---- monitor: captured output at every position after the producer, and in the retry
+        # ---- monitor: captured output at every position after the producer, in the retry and in the restart — whatever else
+        #      (parameter, DAG env entry, earlier output) carries the same name
         exp_out = outb.strip()
-        for pos in AFTER_PRODUCER_1 + RETRY_POS:
+
+        def where_of(pos):
+            # a restart is a complete new run as far as outputs go; as far as parameters go it re-uses recorded ones like a retry
+            return {"run1": "run", "run2": "retry", "run3": "run"}[pos.split(".")[0]]
+        for pos in AFTER_PRODUCER_1 + RETRY_POS + (AFTER_PRODUCER_3 if c.get("restart") else []):
             pr = probes.get(pos)
             if pr is None:
-                chk.violation("C11:consumer-did-not-run:" + pos.split(".")[1], "no probe at %s (statuses %s / %s)" % (pos, r.get("run1_nodes"), r.get("run2_nodes")), rc)
+                chk.violation("C11:consumer-did-not-run:" + pos.split(".")[1], "no probe at %s (statuses %s / %s / %s)" %
+                              (pos, r.get("run1_nodes"), r.get("run2_nodes"), r.get("run3_nodes")), rc)
                 continue
-            v = pr.get(hx("OUT"))
+            v = pr.get(hx(outname))
             got = None if v is None else unhx(v)
             if got != exp_out:
-                where = "retry" if pos.startswith("run2") else "run"
-                chk.violation("C11:output-wrong-in-%s:%s" % (where, ocl),
-                              "$OUT at %s is %r (%s bytes), the producer's trimmed stdout is %r (%d bytes)" %
-                              (pos, None if got is None else got[:60], "-" if got is None else len(got), exp_out[:60], len(exp_out)), rc)
+                chk.violation("C11:output-wrong-in-%s:%s" % (where_of(pos), ocl),
+                              "$%s at %s is %r (%s bytes), the producer's trimmed stdout is %r (%d bytes)%s" %
+                              (outname, pos, None if got is None else got[:60], "-" if got is None else len(got), exp_out[:60], len(exp_out),
+                               "" if outname == "OUT" and not c.get("preout") else " [the name is also carried by: %s]" %
+                               ", ".join(x for x, on in (("a named parameter", outname in [n for n, _ in want]), ("a DAG env entry", outname in [e[0] for e in c.get("envs", [])]),
+                                                          ("an earlier step's output", bool(c.get("preout")))) if on)), rc)
         # ---- monitor: consumers whose `command:` names $OUT — blackdagger expands it itself from its process environment
         #      (run: set by Execute; retry: restored from the record by NewExecutionGraphForRetry)
         argp = r.get("argprobes", {})
-        for pos in ("run1.adjacentarg", "run2.afterfailarg"):
+        for pos in ["run1.adjacentarg", "run2.afterfailarg"] + (["run3.adjacentarg", "run3.afterfailarg"] if c.get("restart") else []):
             a = argp.get(pos)
-            where = "retry" if pos.startswith("run2") else "run"
             if a is None:
-                chk.violation("C11:consumer-did-not-run:" + pos.split(".")[1], "no probe at %s (statuses %s / %s)" % (pos, r.get("run1_nodes"), r.get("run2_nodes")), rc)
+                chk.violation("C11:consumer-did-not-run:" + pos.split(".")[1], "no probe at %s (statuses %s / %s / %s)" %
+                              (pos, r.get("run1_nodes"), r.get("run2_nodes"), r.get("run3_nodes")), rc)
                 continue
             got = [unhx(x) for x in a]
             if got != [exp_out]:
-                chk.violation("C11:output-wrong-in-%s:%s" % (where, ocl),
-                              "`command: … $OUT` at %s received %r, the producer's trimmed stdout is %r (%d bytes)" %
-                              (pos, [g[:60] for g in got], exp_out[:60], len(exp_out)), rc)
+                chk.violation("C11:output-wrong-in-%s:%s" % (where_of(pos), ocl),
+                              "`command: … $%s` at %s received %r, the producer's trimmed stdout is %r (%d bytes)" %
+                              (outname, pos, [g[:60] for g in got], exp_out[:60], len(exp_out)), rc)
             if oi is not None and dres[oi] is not None and got != [dres[oi]["cap"].encode()]:
                 disagree(cid, "restored-arg:" + pos, [g[:40] for g in got], dres[oi]["cap"][:40], c)
-        # ---- monitor: parameters at every position of the run, and of the retry
+        # ---- monitor: parameters at every position of the run, of the retry (real `retry` command) and of the restart
         posn = seen_positional(want)
-        for pos in ALL_POS_1 + RETRY_POS:
+        run1_ok = True
+        for pos in ALL_POS_1 + RETRY_POS + (["run3.before"] + AFTER_PRODUCER_3 if c.get("restart") else []):
             pr = probes.get(pos)
             if pr is None: continue
             got_pos = [None if pr.get(hx(str(i + 1))) is None else unhx(pr[hx(str(i + 1))]).decode(errors="replace") for i in range(len(want))]
-            got_named = {n: (None if pr.get(hx(n)) is None else unhx(pr[hx(n)]).decode(errors="replace")) for n, _ in want if n}
-            bad = got_pos != posn or any(got_named[n] != v for n, v in want if n)
+            # a named parameter whose name the producer's output takes over is judged before the producer only
+            cmp_named = [(n, v) for n, v in want if n and (n != outname or pos.endswith(".before"))]
+            got_named = {n: (None if pr.get(hx(n)) is None else unhx(pr[hx(n)]).decode(errors="replace")) for n, _ in cmp_named}
+            bad = got_pos != posn or any(got_named[n] != v for n, v in cmp_named)
             if not bad: continue
             if pos.startswith("run1"):
+                run1_ok = False
                 chk.violation("C11:param-misparsed:" + parse_class(its, bool(m.get("at_start")) and not c.get("via")),
                               "run started with %r: at %s $1..$n = %r, named = %r" % (m["p"], pos, got_pos, got_named), rc)
-            elif [unhx(x).decode() for x in r["dag_params"]] == posn:
-                chk.violation("C11:params-changed-on-retry:" + retry_class(want),
-                              "retry of a run started with %r: at %s $1..$n = %r, named = %r" % (m["p"], pos, got_pos, got_named), rc)
+            elif run1_ok:
+                leg = "restart" if pos.startswith("run3") else "retry"
+                chk.violation("C11:params-changed-on-retry:%s" % retry_class(want, rec1),
+                              "%s of a run started with %r (recorded %r): at %s $1..$n = %r, named = %r" % (leg, m["p"], rec1, pos, got_pos, got_named), rc)
     chk.disagreements_checked = chk.disagreements
     if dis == 0:
         chk.oblige("correspondence:params (parseParamValue, Params join, re-parse, removeQuotes, escapeArg, DAG.Params by LoadYAML/Load, "
@@ -493,7 +541,7 @@ def run(chk, replay):
     chk.stats = stats
     chk.rule = ("static: item lists of the documented syntax (bare / \"quoted\" / NAME=value / NAME=\"quoted\"; values with spaces, tabs, newlines, "
                 "quotes, '=', backslashes, UTF-8) + corpus of witnesses + random raw strings over {\" \\ = space tab newline ` letters} (malformed "
-                "included); dynamic: real agent run + retry with real sh, 8 environment consumers + 2 command-line ($OUT expanded by blackdagger) consumers, outputs from a byte grammar at sizes "
+                "included); dynamic: the REAL commands `start`, `retry --req`, `restart` (package cmd, one process each) with real sh steps, 8 environment consumers + 2 command-line ($OUT expanded by blackdagger) consumers per run, output names colliding with a named parameter / a DAG env entry / an earlier output, producers retried inside the run, outputs from a byte grammar at sizes "
                 "0,1,4095,4096,4097,65535,65536,65537,100000 + random; non-trivial = item-based string or dynamic case; distinct = distinct input")
     ss = [c for c in cases if c["mode"] == "static"][:2] + [c for c in cases if c["mode"] == "dyn"][:1]
     chk.samples = [{"case": {k: (v if len(str(v)) < 200 else str(v)[:200] + "…") for k, v in c.items()},
